@@ -12,7 +12,7 @@ UNIT = dict(
         "Chaos::call@Service": dict(rules=[
             ("R4",), ("R3",),
             ("inject", None, "start", "broadcast use chaos_float_axioms;"),
-            ("sub", "R8-lock", r"\brng\.lock\(\)\.unwrap\(\)", "vx_lock(&rng)", 1),
+            ("sub", "R8-lock", r"\brng\.lock\(\)\.unwrap\(\)", "vx_lock(&rng)", -1),
             ("sub", "R14-float", r"let mut error_roll: f64 = 1\.0;", "let mut error_roll: f64 = vx_one();", 1),
             ("sub", "R14-float", r"config\.error_injector\.error_rate\(\) > 0\.0", "vx_f64_positive(config.error_injector.error_rate())", 1),
             ("sub", "R14-float", r"config\.latency_rate > 0\.0", "vx_f64_positive(config.latency_rate)", 1),
